@@ -137,6 +137,9 @@ func (o cop) String() string {
 	case "srv:pubrel":
 		return fmt.Sprintf("server PUBREL(%d)", o.id)
 	}
+	if o.kind == "srv:suback-newest" {
+		return "server suback for the newest open request"
+	}
 	return "server " + strings.TrimPrefix(o.kind, "srv:") + " for the oldest open request"
 }
 
@@ -171,9 +174,25 @@ func runDispatch(ops []cop, hist []int, trace bool) (viol, key string, steps int
 			steps++
 			var wantWire []*refcodec.Packet
 			wants := map[string]*wantD{} // "request|payload" -> expectation
+			// a Subscribe has completed (and its callback is due) once its SUBACK and
+			// those of all earlier Subscribe requests have arrived: completions are
+			// handed out in request order (C12/C13); between its own SUBACK and that
+			// moment a request may or may not see messages
+			due := func(idx int) bool {
+				for _, x := range w.Requests {
+					if x.Kind == "sub" && x.Idx < idx && !x.Acked {
+						return false
+					}
+				}
+				return true
+			}
 			addWant := func(topic, payload string, min int, ex *cex) {
 				for idx, n := range w.expectedDeliveries(topic) {
-					wants[fmt.Sprintf("%d|%s", idx, payload)] = &wantD{min: min, nfilters: n, ex: ex}
+					m := min
+					if !due(idx) {
+						m = 0
+					}
+					wants[fmt.Sprintf("%d|%s", idx, payload)] = &wantD{min: m, nfilters: n, ex: ex}
 				}
 			}
 			switch o.kind {
@@ -191,12 +210,14 @@ func runDispatch(ops []cop, hist []int, trace bool) (viol, key string, steps int
 				}
 				r.ID = ps[0].ID
 				continue
-			case "srv:suback", "srv:subfail":
+			case "srv:suback", "srv:subfail", "srv:suback-newest":
 				var r *creq
 				for _, x := range w.Requests {
 					if x.Kind == "sub" && !x.Acked {
 						r = x
-						break
+						if o.kind != "srv:suback-newest" {
+							break
+						}
 					}
 				}
 				if r == nil {
@@ -371,7 +392,10 @@ func runDispatch(ops []cop, hist []int, trace bool) (viol, key string, steps int
 			q = append(q, fmt.Sprintf("%d:%s:%v:%v", id, short(ex.op.payload), ex.released, ex.delivered))
 		}
 		sort.Strings(q)
-		key = strings.Join(ks, ";") + "|" + strings.Join(q, ",")
+		// implementation state: the client's local topic tree and what is still
+		// registered in its ack queues
+		pend := w.Cl.VerifPending()
+		key = strings.Join(ks, ";") + "|" + strings.Join(q, ",") + "|" + w.Cl.VerifTopicsDump() + fmt.Sprintf("|%d.%d", pend["sub"], pend["unsub"])
 	}
 	res := explore.RunDefault(body)
 	if trace {
@@ -513,17 +537,19 @@ func dispatchOps(thorough bool) []cop {
 		{kind: "api:unsub", filters: []string{"a"}},
 		{kind: "api:unsub", filters: []string{"a/+"}},
 		{kind: "api:unsub", filters: []string{"never/subscribed", "a", "b"}},
-		{kind: "srv:suback"}, {kind: "srv:subfail"}, {kind: "srv:unsuback"},
+		{kind: "srv:suback"}, {kind: "srv:subfail"}, {kind: "srv:unsuback"}, {kind: "srv:suback-newest"},
 		{kind: "srv:pub", topic: "a", qos: 0, payload: "m0"},
 		{kind: "srv:pub", topic: "a/c", qos: 0, payload: "m1"},
 		{kind: "srv:pub", topic: "b", qos: 1, id: 5, payload: "m2"},
-		{kind: "srv:pub", topic: "c", qos: 0, payload: "m3"},
 		{kind: "srv:pub", topic: "a/c", qos: 2, id: 6, payload: "m4"},
 		{kind: "srv:pub", topic: "a/c", qos: 2, id: 6, dup: true, payload: "m4dup"},
 		{kind: "srv:pubrel", id: 6},
 	}
+	// overlapping filters in one request (the listed finding)
+	ops = append(ops, cop{kind: "api:sub", filters: []string{"a/+", "a/c"}, qoss: []byte{0, 1}})
 	if thorough {
-		ops = append(ops, cop{kind: "api:sub", filters: []string{"a/+", "a/c"}, qoss: []byte{0, 1}})
+		// a topic nobody subscribes
+		ops = append(ops, cop{kind: "srv:pub", topic: "c", qos: 0, payload: "m3"})
 	}
 	return ops
 }
